@@ -83,7 +83,7 @@ pub fn issue(rb: &mut RunBuilder, r: &mut Rng, o: IssueOpts) -> TokenDesc {
                 assertion: assertion.clone(),
                 out,
                 // the core builder's setters may be called in any order
-                order: if r.chance(1, 2) { 0 } else { r.below(6) as u8 },
+                order: if r.chance(1, 2) { 0 } else { r.below(18) as u8 },
                 rebuild: r.chance(1, 6),
             });
             TokenDesc { msg: out, proto: o.proto, layer: o.layer, key: o.key, footer: o.footer, assertion, issued_at: o.now, builder: None }
